@@ -37,6 +37,18 @@ Theorem C14_none : forall k server user secret w r,
   auth_sasl k server user secret w r = ([], ErrPermanent).
 Proof. exact auth_sasl_no_common. Qed.
 
+(* What "advertised" means on the features element: only <mechanism/> children in
+   the SASL namespace count; a child of <mechanisms/> in any other namespace, whatever
+   it is called and whatever it contains, advertises nothing. *)
+Theorem C14_advertised : forall (children : list fchild) (m : str),
+  In m (advertised children) <-> In (s_ns_sasl, s_mechanism, m) children.
+Proof. exact advertised_spec. Qed.
+
+Theorem C14_foreign_child_ignored : forall k children user secret w r,
+  (forall m, In m (cred_mechs k) -> ~ In (s_ns_sasl, s_mechanism, m) children) ->
+  auth_sasl_features k children user secret w r = ([], ErrPermanent).
+Proof. exact foreign_child_ignored. Qed.
+
 (* Base64 decode inverts encode on every byte string ... *)
 Theorem C14_b64_roundtrip : forall l : str,
   is_bytes l = true -> b64_decode (b64_encode l) = Some l.
@@ -85,13 +97,20 @@ Example C14_example :
       [65; 71; 69; 56; 89; 103; 65; 109; 65; 80; 56; 61] ++ auth_close], Ok)
   /\ b64_decode [65; 71; 69; 56; 89; 103; 65; 109; 65; 80; 56; 61]
      = Some [0; 97; 60; 98; 0; 38; 0; 255]
-  /\ auth_sasl COAuthToken [[83]; s_PLAIN] [97] [98] WOk RSuccess = ([], ErrPermanent).
+  /\ auth_sasl COAuthToken [[83]; s_PLAIN] [97] [98] WOk RSuccess = ([], ErrPermanent)
+  (* SCRAM (as "S") advertised, plus a foreign-namespace child called mechanism
+     holding PLAIN: nothing is sent *)
+  /\ auth_sasl_features CPassword
+       [(s_ns_sasl, s_mechanism, [83]); ([117; 114; 110; 58; 120], s_mechanism, s_PLAIN)]
+       [97] [98] WOk RSuccess = ([], ErrPermanent).
 Proof. repeat split; reflexivity. Qed.
 
 Print Assumptions C14_mech_sound.
 Print Assumptions C14_mech_by_kind.
 Print Assumptions C14_written.
 Print Assumptions C14_none.
+Print Assumptions C14_advertised.
+Print Assumptions C14_foreign_child_ignored.
 Print Assumptions C14_b64_roundtrip.
 Print Assumptions C14_payload_exact.
 Print Assumptions C14_b64_alphabet.
